@@ -217,6 +217,10 @@ def run_unit(unit: Unit, repo: str = REPO, probe: bool = True, tag: str = '') ->
     with open(path, 'w', encoding='utf-8') as f:
         f.write(text)
     ur.file = path
+    for nm, src in (unit.aux_files(repo) if hasattr(unit, 'aux_files') else {}).items():
+        shutil.copyfile(src, os.path.join(scratch(), nm))
+    for k, v in (unit.env() if hasattr(unit, 'env') else {}).items():
+        os.environ.setdefault(k, v)
     cheats = scan_cheats(out)
     if cheats:
         ur.reason = 'assumption found outside the prelude: ' + '; '.join(cheats[:5])
